@@ -68,6 +68,11 @@ class Matrix3(Matrix):
 
         # Based on the SPICE source code for TWOVEC()
 
+        if axis1 not in (0,1,2) or axis2 not in (0,1,2) or axis1 == axis2:
+            raise ValueError('Matrix3.twovec() axes must be two different '
+                             'values in the range 0-2: %s, %s'
+                             % (str(axis1), str(axis2)))
+
         # Make shapes and types consistent
         unit1 = Vector3.as_vector3(vector1).unit(recursive=recursive)
         vector2 = Vector3.as_vector3(vector2, recursive=recursive)
